@@ -50,6 +50,7 @@ theorem refresh_of_inv {s : DbState} (h : Inv s) : s.refresh = built s.cmds := b
 theorem inv_refresh {s : DbState} (h : Inv s) : Inv s.refresh := by
   rw [refresh_of_inv h]; exact inv_built _
 
+omit [ScoreOps S] in
 theorem inv_step (ri : RuneInfo) {s : DbState} (h : Inv s) (op : Op S) (hop : op.InScope) : Inv (step ri s op) := by
   cases op with
   | load raw => exact inv_built _
@@ -64,6 +65,7 @@ theorem inv_step (ri : RuneInfo) {s : DbState} (h : Inv s) (op : Op S) (hop : op
   | replaceDirect cs => exact False.elim hop
   | search q o => exact inv_refresh h
 
+omit [ScoreOps S] in
 theorem inv_run (ri : RuneInfo) {s : DbState} (h : Inv s) (ops : List (Op S)) (hops : ∀ op ∈ ops, op.InScope) :
     Inv (run ri s ops) := by
   unfold run
@@ -76,7 +78,7 @@ theorem inv_run (ri : RuneInfo) {s : DbState} (h : Inv s) (ops : List (Op S)) (h
 theorem refresh_idx (s : DbState) : s.refresh.idx.isSome = true := by
   unfold refresh needsRebuild
   cases h : s.idx with
-  | none => simp [h, built]
+  | none => simp [built]
   | some i => by_cases hn : (i.n != s.cmds.length) = true <;> simp [hn, h, built]
 
 /-- the answer given in an invariant state is the answer of a database freshly built from the
@@ -102,6 +104,7 @@ structure WFCache (ri : RuneInfo) (c : Cmd) : Prop where
 theorem wfCache_populate (ri : RuneInfo) (c : Cmd) : WFCache ri (populate ri c) :=
   ⟨Or.inr rfl, Or.inr rfl, Or.inr rfl, Or.inr rfl⟩
 
+omit [ScoreOps S] in
 /-- every command of a loaded / merged database has well-formed caches -/
 theorem wfCache_step_load (ri : RuneInfo) (s : DbState) (raw : List Cmd) :
     ∀ c ∈ (DbState.step (S := S) ri s (.load raw)).cmds, WFCache ri c := by
@@ -110,6 +113,7 @@ theorem wfCache_step_load (ri : RuneInfo) (s : DbState) (raw : List Cmd) :
   obtain ⟨c0, _, rfl⟩ := hc
   exact wfCache_populate ri c0
 
+omit [ScoreOps S] in
 theorem wfCache_step_loadWithPersonal (ri : RuneInfo) (s : DbState) (m : List Cmd) (p : Option (List Cmd)) :
     ∀ c ∈ (DbState.step (S := S) ri s (.loadWithPersonal m p)).cmds, WFCache ri c := by
   intro c hc
